@@ -135,6 +135,7 @@ class Vector(Qube):
 
         result = Qube.PAIR_CLASS(self._values_[idx], self._mask_, derivs={},
                                                               example=self)
+        result._readonly_ = self._readonly_ # the result is a view of this object
 
         if recursive and self._derivs_:
             for (key,deriv) in self._derivs_.items():
